@@ -363,6 +363,21 @@ static void *retargeter_main(void *arg)
 		if (d != seen_done) { seen_done = d; seen_at = now; }
 		else if (now - seen_at > 1500000000ull) {
 			if (!atomic_exchange(&t->rt_stalled, 1)) vf_trace_dump_watched();
+			/* debugging aid: VF_STALL_GDB=<seconds> — once the stall has lasted that long, dump every thread and every queue of the trial */
+			static _Atomic int dumped;
+			if (getenv("VF_STALL_GDB") && now - seen_at > (uint64_t)atoi(getenv("VF_STALL_GDB")) * 1000000000ull && !atomic_exchange(&dumped, 1)) {
+				char fn[128], cmd[512];
+				snprintf(fn, sizeof(fn), "/tmp/vf-stall-%d.gdbcmd", (int)getpid());
+				FILE *f = fopen(fn, "w");
+				if (f) {
+					fprintf(f, "set print pretty off\nthread apply all bt 14\n");
+					for (int i = 0; i < t->nq; i++) fprintf(f, "echo \\nQUEUE %d %s\\n\np/x *(struct dispatch_lane_s *)%p\n", i, t->qs[i].label, (void *)t->qs[i].q);
+					fprintf(f, "p/x _dispatch_root_queues[4]\np/x _dispatch_root_queues[5]\np/x _dispatch_root_queues[6]\np/x _dispatch_root_queues[7]\np/x _dispatch_root_queues[2]\np/x _dispatch_root_queues[3]\n");
+					fclose(f);
+					snprintf(cmd, sizeof(cmd), "timeout 120 gdb -batch -p %d -x %s > /tmp/vf-stall-%d.txt 2>&1", (int)getpid(), fn, (int)getpid());
+					int rc = system(cmd); (void)rc;
+				}
+			}
 			struct timespec ts = { 0, 20000000 }; nanosleep(&ts, NULL); continue;
 		}
 		int li = t->ntargets + (int)vf_rnd_n(&r, (uint32_t)(t->nq - t->ntargets));
